@@ -295,8 +295,16 @@ func (s *Sim) writeConfig(host, inc string, n int, cli bool) (cfgPath, lockfile 
 	return
 }
 
+// setDisk: pct < 0 makes the usage unmeasurable (the report file holds no number)
 func (s *Sim) setDisk(host string, pct int) {
-	os.WriteFile(filepath.Join(s.hostDir(host), "disk_usage"), []byte(fmt.Sprint(pct)), 0o644)
+	if pct < 0 {
+		os.WriteFile(filepath.Join(s.hostDir(host), "disk_usage"), []byte("n/a"), 0o644)
+	} else {
+		os.WriteFile(filepath.Join(s.hostDir(host), "disk_usage"), []byte(fmt.Sprint(pct)), 0o644)
+	}
+	if s.mon != nil {
+		s.mon.onDisk(host, pct)
+	}
 	if sv := s.mysql.servers[host]; sv != nil {
 		sv.DiskPct = pct
 	}
